@@ -314,10 +314,13 @@ pub fn gen_scenario(run_seed: u64, pool: &Pool) -> Scenario {
     // inputs
     let ni = r.range(1, 4);
     let mut inputs: Vec<String> = Vec::new();
+    let mut twin_pairs: Vec<(usize, usize)> = Vec::new();
     for i in 0..ni {
-        let s = if i > 0 && r.chance(1, 5) {
+        let s = if i > 0 && r.chance(1, 4) {
             // equal length, equal prefix: what a wrongly keyed cache confuses
-            twin(&inputs[r.below(i)], &mut r)
+            let of = r.below(i);
+            twin_pairs.push((of, i));
+            twin(&inputs[of], &mut r)
         } else if r.chance(3, 5) {
             r.pick(&pool.inputs).clone()
         } else {
@@ -327,6 +330,7 @@ pub fn gen_scenario(run_seed: u64, pool: &Pool) -> Scenario {
     }
     // threads and ops
     let nt = *r.pick(&[1usize, 2, 2, 2, 3, 3, 4]);
+    let twins = twin_pairs.clone();
     let mut threads: Vec<Vec<Op>> = Vec::new();
     let mut hard_budget = 2;
     let mut reenter_budget = 2;
@@ -336,6 +340,16 @@ pub fn gen_scenario(run_seed: u64, pool: &Pool) -> Scenario {
         let mut ops = Vec::new();
         for _ in 0..nops {
             let mut op = gen_plain_op(&mut r, np, ni, &sw);
+            // callbacks only run for metadata entries and recipe references: aim them there
+            if matches!(&op.kind, OpKind::Parse { cb: Some(_), .. } | OpKind::Metadata { cb: Some(_), .. }) {
+                let fires = |t: &String| t.contains(">>") || t.contains("@@") || t.starts_with("---");
+                if !fires(&inputs[op.input]) {
+                    let c: Vec<usize> = (0..ni).filter(|&i| fires(&inputs[i])).collect();
+                    if !c.is_empty() {
+                        op.input = *r.pick(&c);
+                    }
+                }
+            }
             let ext = parsers[op.parser].ext_bits;
             let text = &inputs[op.input];
             // keyed variations
@@ -420,6 +434,25 @@ pub fn gen_scenario(run_seed: u64, pool: &Pool) -> Scenario {
             ops.push(op);
         }
         threads.push(ops);
+    }
+    // the same plain operation on both members of a twin pair, on the same parser
+    let mut tr = root.fork(5);
+    for (a, b) in twins {
+        if inputs[a] == inputs[b] || !tr.chance(3, 4) {
+            continue;
+        }
+        let parser = tr.below(np);
+        let kind = match tr.below(6) {
+            0 | 1 => OpKind::Parse { via: Via::Direct, cb: None, truncate: None },
+            2 => OpKind::Metadata { via: Via::Direct, cb: None },
+            3 => OpKind::Parse { via: Via::Adapter, cb: None, truncate: None },
+            4 => OpKind::ScaleConvert { factor: 2.0, system: "metric".into() },
+            _ => OpKind::Events { meta: false, take: None },
+        };
+        for input in [a, b] {
+            let t = tr.below(threads.len());
+            threads[t].push(Op { kind: kind.clone(), parser, input, faults: vec![] });
+        }
     }
     Scenario {
         parsers,
